@@ -12,7 +12,7 @@ CASE_TIMEOUT_S = 60   # bundles hold up to 22k strings (~1 s); a single hanging 
 RULE = ('language space: all strings of <=L tokens over a 28-token alphabet (BFS by length, bundled by 2-token prefix); '
         'mutation space: delete / insert any token / swap neighbours / duplicate at every character position of every '
         'valid string of the C01 level<=1 space; pumping: every <=3-token string with each token repeated 1..8 times; '
-        'deferred validation: 13 slots (incl. global rules on absent residues, termini, with an isotope label) x 43 unresolvable values x 6 calls; non-trivial = contains a bracket or separator '
+        'deferred validation: 18 slots (incl. global rules on absent residues, termini, with an isotope label) x 43 unresolvable values x 6 calls; non-trivial = contains a bracket or separator '
         'token (language), any mutant (mutation)')
 ASSUMPTIONS = ['"an error" = any ValueError subclass (all peptacular errors derive from ValueError)',
                'is_sequence_valid must never raise, must be False for rejected text and True for text that parses to a single-chain annotation',
@@ -38,7 +38,9 @@ MACRO = ['PEK', 'K', '[1]', '^2', '/2', '[+Na+]', '-', '?', '(', ')', '<13C>', '
 # for the mass of that composition raises)
 COMP_KEEPS_UNKNOWN_SYMBOL = {'Formula:Zz2', 'INFO:a|Formula:Zz2'}
 SLOTS = ['labile', 'static', 'unknown', 'nterm', 'r0', 'iv', 'cterm', 'rlast',
-         'static:C', 'static:N-Term', 'static:C-Term', 'static+13C', 'static:C+13C']   # static:C = rule on a residue the peptide lacks
+         'static:C', 'static:N-Term', 'static:C-Term', 'static+13C', 'static:C+13C',
+         # the unresolvable value next to a resolvable global rule on the same place
+         'cterm+rule', 'nterm+rule', 'rlast+rule', 'static-first-of-two', 'static-second-of-two']   # static:C = rule on a residue the peptide lacks
 
 
 def describe(tier):
@@ -234,7 +236,14 @@ def check(case, ctx):
         elif case.get('with') == 'before':
             mods = [[val, mult], ['Acetyl', 1]]
         slots = {slot: mods}
-        if slot.startswith('static'):
+        if slot in ('cterm+rule', 'nterm+rule', 'rlast+rule'):
+            tgt = {'cterm+rule': 'C-Term', 'nterm+rule': 'N-Term', 'rlast+rule': 'K'}[slot]
+            slots = {slot.split('+')[0]: mods, 'static': [{'mods': [['Acetyl', 1]], 'targets': [tgt]}]}
+        elif slot in ('static-first-of-two', 'static-second-of-two'):
+            mine = {'mods': [[m[0], 1] for m in mods], 'targets': ['K']}
+            other = {'mods': [['Acetyl', 1]], 'targets': ['K']}
+            slots = {'static': [mine, other] if slot == 'static-first-of-two' else [other, mine]}
+        elif slot.startswith('static'):
             tgt = slot.split('+')[0].partition(':')[2] or 'K'
             slots = {'static': [{'mods': [[m[0], 1] for m in mods], 'targets': [tgt]}]}
             if slot.endswith('+13C'):
